@@ -153,7 +153,8 @@ func anyFileNewerThan(files []string, givenTime time.Time) (bool, error) {
 
 // OnError implements the Checker interface
 func (checker *TimestampChecker) OnError(t *ast.Task) error {
-	if len(t.Sources) == 0 {
+	// a dry run has recorded nothing, so there is nothing to forget
+	if len(t.Sources) == 0 || checker.dry {
 		return nil
 	}
 	return os.Remove(checker.timestampFilePath(t))
